@@ -213,6 +213,19 @@ class Layouts:
         if k == "store":
             base = self.layout(t[1], depth)
             idx = t[2]
+            if idx[0] == "sliceidx" and idx[3] is None and (idx[1] is None or is_const(idx[1])) and idx[2] is not None and is_const(idx[2]):
+                lo, hi = (idx[1][1] if idx[1] is not None else 0), idx[2][1]
+                val = flatten(self.layout(t[3], depth))
+                vex = explode(val)
+                if vex is None or len(vex) != hi - lo or lo < 0:
+                    self._unknown(t, "(slice store of a different length)")
+                cur = base
+                for k, cell in enumerate(vex):
+                    vt = ("const", cell[1]) if cell[0] == "c" else (cell[1] if cell[0] == "t" else None)
+                    if vt is None:
+                        self._unknown(t, "(slice store of a composite value)")
+                    cur = self._store(cur, lo + k, vt, t)
+                return cur
             if not (is_const(idx) and isinstance(idx[1], int)):
                 self._unknown(t, "(non-constant store index)")
             return self._store(base, idx[1], t[3], t)
@@ -384,10 +397,20 @@ class Layouts:
                     self._unknown(t, "(struct.pack format)")
                 order = "little" if fmt.startswith("<") else ("big" if fmt.startswith((">", "!")) else "little")
                 codes = fmt.lstrip("<>!=@")
+                import re as _re
+                codes = "".join(ch * int(n or 1) for n, ch in _re.findall(r"(\d*)([A-Za-z])", codes))
                 sizes = {"B": 1, "b": 1, "H": 2, "h": 2, "I": 4, "i": 4, "L": 4, "l": 4, "Q": 8, "q": 8}
-                vals = args[1:]
+                vals = []
+                for a_ in args[1:]:
+                    if a_[0] == "starred" and strip(a_[1])[0] in ("tuple", "list"):
+                        vals += list(strip(a_[1])[1])
+                    else:
+                        vals.append(a_)
                 if len(codes) != len(vals) or any(c not in sizes for c in codes):
                     self._unknown(t, "(struct.pack format/arity)")
+                if any(c in "bhilq" for c in codes):
+                    self.notes.append(f"struct.pack format {fmt!r} uses a signed code")
+                    return [Field(sizes[c], ("signed", v) if c in "bhilq" else v, order) if sizes[c] > 1 else Byte(v) for c, v in zip(codes, vals)]
                 return [Field(sizes[c], v, order) if sizes[c] > 1 else Byte(v) for c, v in zip(codes, vals)]
             if name == "Crypto.Random.get_random_bytes":
                 return [Opaque("random", lin(args[0]) or Lin(0, {args[0]: 1}), key=args[0])]
@@ -401,17 +424,32 @@ class Layouts:
         if fr[0] == "meth":
             recv, m = fr[1], fr[2]
             if m == "to_bytes":
-                n = args[0][1] if args and is_const(args[0]) else None
+                n = args[0][1] if args and is_const(args[0]) else (dict(kwargs).get("length", ("const", None))[1])
                 order = args[1][1] if len(args) > 1 and is_const(args[1]) else (dict(kwargs).get("byteorder", ("const", "big"))[1])
                 if n is None:
                     self._unknown(t, "(to_bytes width)")
+                if n == 1:
+                    return [Byte(recv)]
                 return [Field(n, recv, order)]
+            if m == "join" and is_const(recv) and recv[1] == b"" and len(args) == 1:
+                a = strip(args[0])
+                if a[0] in ("tuple", "list"):
+                    out = []
+                    for x in a[1]:
+                        out += self._lay(x, depth)
+                    return out
+                if a[0] == "comp":
+                    inner = self.layout(a[2], depth)
+                    return [Opaque("repeat", Lin(0, {("len-repeat", show(a[3][0][1])[:40]): 1}), of=inner, key=a)]
+                self._unknown(t, "(join of a non-literal sequence)")
             if m == "digest":
-                h = recv
-                if call_is(h, "hashlib.md5"):
-                    return [Digest("md5", 16, self.layout(h[2][0], depth))]
-                if call_is(h, "hashlib.sha256"):
-                    return [Digest("sha256", 32, self.layout(h[2][0], depth))]
+                from .facts import digest_parts
+                dp = digest_parts(t)
+                if dp is not None and dp[0] in ("md5", "sha256", "sha1"):
+                    over = []
+                    for part in dp[1]:
+                        over += self._lay(part, depth)
+                    return [Digest(dp[0], {"md5": 16, "sha256": 32, "sha1": 20}[dp[0]], flatten(over))]
             if m in ("encrypt", "decrypt") and call_is(recv, "Crypto.Cipher.AES.new"):
                 mode = recv[2][1] if len(recv[2]) > 1 else None
                 mode_s = "cbc" if mode == ("const", ("AES", "CBC")) or (mode and "MODE_CBC" in show(mode)) else (
